@@ -186,6 +186,9 @@ INFER_PROGS = [
     ("const_cmp!/typed,untyped", "pub const C: core::cmp::Ordering = konst::const_cmp!(3u32, 5);"),
     ("const_eq!/typed,untyped", "pub const C: bool = konst::const_eq!(3u8, 5);"),
     ("const_eq!/str", "pub const C: bool = konst::const_eq!(\"a\", \"b\");"),
+    ("const_cmp!/temporaries", "pub fn f(a: &str, b: &str) -> core::cmp::Ordering { konst::const_cmp!(a.to_uppercase().as_str(), b.to_lowercase().as_str()) }"),
+    ("const_eq!/temporaries", "pub fn f(a: &str, b: &str) -> bool { konst::const_eq!(a.to_uppercase().as_str(), b.to_lowercase().as_str()) }"),
+    ("const_eq_for!/temporaries", "pub fn f(a: &[u8], b: &[u8]) -> bool { konst::const_eq_for!(slice; a.to_vec().as_slice(), b.to_vec().as_slice()) }"),
     ("const_cmp!/option", "pub const C: core::cmp::Ordering = konst::const_cmp!(Some(3u8), None);"),
     ("assertc_eq!/typed,untyped", "pub const C: () = konst::assertc_eq!(3u8, 3);"),
     ("assertc_ne!/typed,untyped", "pub const C: () = konst::assertc_ne!(3u8, 4);"),
